@@ -547,7 +547,7 @@ def set_params(net: nnx.Module, params: jnp.ndarray):
     n_params_set = 0
     new_leaves = []
     for leaf in leaves:
-        n_params_leaf = np.prod(leaf.shape)
+        n_params_leaf = int(np.prod(leaf.shape))
         new_leaf = params[n_params_set : n_params_set + n_params_leaf].reshape(
             leaf.shape
         )
